@@ -124,6 +124,8 @@ def analyses(ses, rep):
 
 
 def run(ses, rep):
+    if rep.tier != "quick":
+        ignoremodel.K_TOKENS, ignoremodel.K_LINES, ignoremodel.VISITS = 3, 3, 14          # thorough: 3 comment tokens x 3 lines
     rep.assumptions += ["to_owned()/clone() of a full_moon node is lossless and Ast::to_string prints a node as parsed (full_moon contract)",
                         "comment lines: <=2 comment tokens x <=2 lines for should_format_node, <=3 lines for the toggle; line text ranges over "
                         "the directive strings and near-misses " + repr(ignoremodel.LINES),
